@@ -215,8 +215,11 @@ pub(super) fn slice_element(p: &mut Parser) -> CompletedMarker {
     value(p);
     if p.at_set(&[T![...], T![-]]) {
         p.eat();
+        // a range operator must be followed by the end of the range
+        value(p);
+    } else {
+        opt_value(p);
     }
-    opt_value(p);
     p.finish_node();
     CompletedMarker::Success
 }
